@@ -97,6 +97,10 @@ def type_stream(rnd: random.Random, n_random: int):
             Union[Tuple[F0], Tuple[F0, F0], Tuple[F0, F0, F0], Tuple[()], Tuple[F0, F0, F0, F0], Tuple[F0, F0, F0, F0, F0],
                   Tuple[F0, F0, F0, F0, F0, F0]],
             Union[F0, fx.A, fx.B, fx.C, fx.E, fx.X, fx.Y], Generator[F0, None, None], Generator[int, None, F0]]
+    # generators: None in the yield position, with one or both of send / return None
+    for g in (Generator[NoneType, None, None], Generator[NoneType, int, None], Generator[NoneType, None, int],
+              Generator[NoneType, NoneType, str], Generator[int, NoneType, None], Generator[int, int, None]):
+        out += [g, Optional[g], List[g]]
     # dict unions for RewriteConfigDict
     for vs in ([int, str], [int, str, NoneType], [List[int], int], [int, Dict[str, int]]):
         out.append(Union[tuple(Dict[str, v] for v in vs)])
